@@ -95,10 +95,12 @@ ENZYMES = sorted(RULES)
 NTERM_CUTTERS = {'asp-n', 'lysn', 'ntcb'}
 
 
-def _match_alt(seq: str, i: int, alt: dict) -> bool:
+def _match_alt(seq: str, i: int, alt: dict, open_nterm: bool = False) -> bool:
     n = len(seq)
     for name, (allowed, s) in alt.items():
         p = i + POS[name]
+        if open_nterm and p < 0 and name in ('P4', 'P3', 'P2'):
+            continue       # attribution only: the graph node holds residues translated from upstream of the start codon there
         if p < 0 or p >= n:
             return False
         c = seq[p]
@@ -202,7 +204,9 @@ def has_context(rule, exception=None) -> bool:
 
 
 def loose_sites(seq, rule):
-    return [i for i in range(1, len(seq)) if any(_match_alt(seq, i, a) for a in _LOOSE[rule])]
+    # a REQUIRED context residue that would lie before the protein's first residue counts as unknown: callVariant evaluates the
+    # look-behind on the graph node, which also holds the residues translated from the 5'UTR (known finding KF-CTX)
+    return [i for i in range(1, len(seq)) if any(_match_alt(seq, i, a, open_nterm=True) for a in _LOOSE[rule])]
 
 
 _LOOSE_P1 = {k: [_complete(_strip(a)) for a in v] for k, v in RULES.items()}
